@@ -91,6 +91,9 @@ pub struct Geo {
     /// FAT32 only: mirroring on/off and the active copy
     pub mirror: bool,
     pub active: u32,
+    /// FAT32 only: bits of BPB_ExtFlags that carry no meaning and must be ignored: the active-copy nibble while
+    /// mirroring is ON, and the reserved bits 4-6 / 8-15
+    pub flag_noise: u16,
     pub root_cluster: u32,
     pub media: u8,
     pub volume_id: u32,
@@ -162,6 +165,7 @@ impl Geo {
             clusters,
             mirror: true,
             active: 0,
+            flag_noise: 0,
             root_cluster: if bits == 32 { 2 } else { 0 },
             media: 0xF8,
             volume_id: 0x1BAD_B002,
@@ -206,7 +210,7 @@ impl Geo {
         let mut at = 36;
         if self.bits == 32 {
             b[36..40].copy_from_slice(&self.spf.to_le_bytes());
-            let flags: u16 = if self.mirror { 0 } else { 0x80 | self.active as u16 };
+            let flags: u16 = (if self.mirror { 0 } else { 0x80 | self.active as u16 }) | self.flag_noise;
             b[40..42].copy_from_slice(&flags.to_le_bytes());
             b[42..44].copy_from_slice(&0u16.to_le_bytes());
             b[44..48].copy_from_slice(&self.root_cluster.to_le_bytes());
@@ -1056,6 +1060,11 @@ pub fn random_volume(rng: &mut SplitMix64, bits: u8) -> Built {
         *fr.entry(format!("fat32.mirror_off_active{}", geo.active)).or_default() += 1;
     } else if bits == 32 {
         *fr.entry("fat32.mirror_on".into()).or_default() += 1;
+        // a stale active-copy number left in the nibble: meaningless while mirroring is on
+        if fats > 1 && rng.chance(1, 3) {
+            geo.flag_noise = rng.range(1, fats as u64) as u16;
+            *fr.entry("fat32.mirror_on_stale_active_nibble".into()).or_default() += 1;
+        }
     }
     if rng.chance(1, 10) {
         geo.dev_size += rng.range(1, 5000);
